@@ -1021,6 +1021,18 @@ def run(ctx, out):
         if pool is not None:
             pool.terminate()
             pool.join()
+    # minimise the first failing input of each signature (the first violation is what ./check writes as replay)
+    seen_sig, small = set(), []
+    for v in out.violations:
+        if v["signature"] in seen_sig or len(seen_sig) >= 4:
+            continue
+        seen_sig.add(v["signature"])
+        mc = shrink(v["case"], v["signature"])
+        _, mv, _, _ = execute(mc)
+        mv = [x for x in mv if x["signature"] == v["signature"]]
+        if mv:
+            small.append(dict(mv[0], minimised_from_ops=len(v["case"]["ops"])))
+    out.violations[:0] = small
     # samples for the evidence
     smp = gen_random(rng, "ws", nops=4)
     conns, viol, _, _ = execute(smp)
@@ -1044,6 +1056,41 @@ def run(ctx, out):
             exp += [len(rest)] + list(rest)
             if r_ != exp:
                 out.disagreements.append({"what": "python deframe differs from the extracted deframe", "wire": list(w)[:200]})
+
+
+def shrink(case, sig, budget=400):
+    """delta-debugging on the op list and the plans: smallest case found that still fails with signature `sig`"""
+    def fails(c):
+        try:
+            _, viol, _, _ = execute(c)
+        except Exception:
+            return False
+        return any(v["signature"] == sig for v in viol)
+
+    cur = json.loads(json.dumps(case))
+    tries, changed = 0, True
+    while changed and tries < budget:
+        changed = False
+        i = len(cur["ops"]) - 1
+        while i >= 1 and tries < budget:            # drop ops (never the connect)
+            cand = dict(cur, ops=cur["ops"][:i] + cur["ops"][i + 1:])
+            tries += 1
+            if fails(cand):
+                cur, changed = cand, True
+            i -= 1
+        for i, op in enumerate(cur["ops"]):       # shorten plans
+            pl = op.get("plan")
+            while pl and tries < budget:
+                for cut in (pl[:-1], pl[1:]):
+                    ops = list(cur["ops"])
+                    ops[i] = dict(op, plan=cut)
+                    tries += 1
+                    if fails(dict(cur, ops=ops)):
+                        cur, op, pl, changed = dict(cur, ops=ops), ops[i], cut, True
+                        break
+                else:
+                    break
+    return cur
 
 
 def replay(payload):
